@@ -29,12 +29,16 @@ def queries(tier, seed):
                     for fault in [-1] + list(range(NALLOC[op] + (1 if pre == 3 else 0))):
                         shapes = SHAPES3 if op in (0, 1, 2, 12) else [SHAPES3[0]]
                         for s3 in shapes:
-                            shape_ok = (s3 == SHAPES3[0] or (s3 == SHAPES3[2] and op in (0, 1, 2)) or (s3 == SHAPES3[1] and op == 12))
+                            shape_ok = (s3 == SHAPES3[0] or (s3 in (SHAPES3[1], SHAPES3[2]) and op in (0, 1, 2)) or (s3 == SHAPES3[1] and op == 12))
                             quick = shape_ok and fault <= 0 and not (pre == 3 and op in (8, 9, 11)) and (
                                 (cfg == (0, 0, 1) and (pre in (1, 2) or op in (0, 3, 4, 6, 7, 12)))
                                 or (cfg == (0, 1, 1) and op in (4, 5, 7, 14) and pre in (1, 3))
                                 or (cfg == (1, 0, 1) and pre == 1 and op in (0, 1, 3, 4, 6, 10) and fault < 0))
                             add(cfg, pre, [op], idb, fault, s3, 'quick' if quick else 'thorough')
+    # a few two-operation histories in the quick tier: a capacity-changing step followed by a recreate that must notice it
+    for (o1, o2, s3) in [(5, 0, (2, 2, 0)), (3, 0, (2, 2, 0)), (13, 11, (2, 2, 0)), (4, 1, (1, 1, 8)), (0, 0, (1, 1, 8)), (12, 9, (2, 2, 0))]:
+        for idb in (1, 2):
+            add((0, 0, 1), 1, [o1, o2], idb, -1, s3, 'quick')
     if tier == 'thorough':
         # two-operation histories after the default and the sized pre-state, every fault point
         pair_ops = [0, 1, 3, 4, 5, 6, 7, 10, 11, 13, 14]
